@@ -863,7 +863,7 @@ class ExprMixin:
         if spec is not None:
             kind, pidx, raises = spec
             paths = [args[i] if i < len(args) else EMPTY for i in pidx]
-            if d == "fcntl.flock":
+            if d in ("fcntl.flock", "fcntl.lockf", "os.posix_fallocate", "os.ftruncate", "os.fsync", "os.write", "os.close"):
                 paths = [frozenset(self._handle_of_fileno(t) for t in args[0])]
             if kind == "REMOVE" and paths:
                 # pending / tmps record that a removal was *attempted*; whether the removal
@@ -880,6 +880,9 @@ class ExprMixin:
                 if raises:
                     self.raise_star(st, out)
                 st = self.emit(kind, d, paths, n, st, frame)
+            if d == "fcntl.flock":
+                # the advisory lock lives on the open file description until that handle is closed
+                st = st.set(done=st.done | {("flocked", h) for h in paths[0] if tag(h) == "handle"})
             if kind == "PROBE":
                 if d in ("os.path.isfile", "os.path.exists", "os.path.isdir"):
                     return V(("probe", d.rsplit(".", 1)[1], paths[0], st.muts)), st
@@ -908,7 +911,10 @@ class ExprMixin:
     @staticmethod
     def _handle_of_fileno(t):
         if tag(t) == "fileno":
-            return t[1]
+            h = t[1]
+            if tag(h) == "tmpfile":
+                return ("tmpname", h[1], h[2])     # the named temp file the descriptor belongs to
+            return h
         return t
 
     def _mk_other(self, kind, prim, paths, n, st, frame):
@@ -958,7 +964,8 @@ class ExprMixin:
                 self.problem(f"{self.p.loc(frame.func, n)}: open() mode {m[1]!r} not classified")
                 continue
             st = self.emit(kind, "open", [path], n, st, frame,
-                           extra={"mode": m[1], "buffering": kw.get("buffering") or (args[2] if len(args) > 2 else None)})
+                           extra={"mode": m[1], "buffering": kw.get("buffering") or (args[2] if len(args) > 2 else None),
+                                  "encoding": kw.get("encoding") or (args[3] if len(args) > 3 else None)})
             for p_ in path:
                 res.add(("handle", p_, m[1], site))
         return frozenset(res), st
@@ -1143,6 +1150,8 @@ class ExprMixin:
             return self.call_value(av, args, kw, n, st, frame, out)
         if tg == "module":
             return self._call_imported(f"{r[1]}.{meth}", args, kw, n, st, frame, out)
+        if tg == "tmpfile" and meth == "fileno":
+            return V(("fileno", r)), st
         if tg == "handle":
             spec = PR.HANDLE_METHODS.get(meth)
             if spec is None:
@@ -1157,7 +1166,7 @@ class ExprMixin:
                 st = self.emit(kind, "file." + meth, [V(r[1])] + [a for a in args[:1]], n, st, frame,
                                extra={"handle": r, "mode": r[2]})
                 if kind == "CLOSE":
-                    st = st.set(done=st.done | {("closed", r[1])})
+                    st = st.set(done=(st.done - {("flocked", r)}) | {("closed", r[1])})
             else:
                 st = self.emit("HANDLEOP", "file." + meth, [V(r[1])], n, st, frame, extra={"handle": r, "mode": r[2], "args": list(args)})
             if meth == "read":
